@@ -2,6 +2,7 @@ SPECIFICATION Spec
 CONSTANT ActiveT = 2
 CONSTANT InactiveT = 3
 CONSTANT MaxRetries = 1
+CONSTANT MinU = 0
 CONSTANT MaxEnd = 3
 CONSTANT MaxTot = 2
 CONSTANT MaxDelta = 1
